@@ -347,8 +347,9 @@ impl EventGen for SpecsElement {
         }
         if let Some(inner_events) = self.0.inner_events(context) {
             context.in_specs = true;
-            process_events(inner_events, context)?;
+            let res = process_events(inner_events, context);
             context.in_specs = false;
+            res?;
         }
         Ok((OutputList::new(), None))
     }
